@@ -228,7 +228,8 @@ class Helper(object):
         self.fn = fn
         self.static = any(isinstance(d, ast.Name) and d.id == 'staticmethod' for d in fn.decorator_list)
         a = fn.args
-        self.ok = not (a.vararg or a.kwarg or a.kwonlyargs or getattr(a, 'posonlyargs', None))
+        self.ok = not (a.kwarg or a.kwonlyargs or getattr(a, 'posonlyargs', None))
+        self.vararg = a.vararg.arg if a.vararg else None
         if any(not (isinstance(d, ast.Name) and d.id == 'staticmethod') for d in fn.decorator_list):
             self.ok = False
         body = _loop_idioms(_docless(fn.body))
@@ -240,7 +241,7 @@ class Helper(object):
             if not params or params[0] != 'self':
                 self.ok = False
             params = params[1:]
-        self.params = params
+        self.params = params + ([self.vararg] if self.vararg else [])
         nd = len(a.defaults)
         self.defaults = {}
         allp = [x.arg for x in a.args]
@@ -595,9 +596,16 @@ class Normaliser(object):
             return None
         if any(isinstance(a, ast.Starred) for a in call.args) or any(k.arg is None for k in call.keywords):
             return None
-        if len(call.args) > len(h.params):
+        if getattr(h, 'vararg', None):
+            fixed = h.params[:-1]
+            if len(call.args) < len(fixed) or any(k.arg == h.vararg for k in call.keywords):
+                return None
+            binding = dict(zip(fixed, call.args))
+            binding[h.vararg] = ast.copy_location(ast.Tuple(elts=list(call.args[len(fixed):]), ctx=ast.Load()), call)
+        elif len(call.args) > len(h.params):
             return None
-        binding = dict(zip(h.params, call.args))
+        else:
+            binding = dict(zip(h.params, call.args))
         for k in call.keywords:
             if k.arg not in h.params or k.arg in binding:
                 return None
@@ -1159,8 +1167,10 @@ class Normaliser(object):
 
     def run(self):
         if self.inline_only:
-            self._defs_to_lambdas = self._ifs_to_conditional_expressions = self._outline = self._merge_conditional_calls = self._split_parallel_assignments = self._for_else_to_early_exit = self._scalarise_private_namedtuples = self._forward_pure_loads = lambda: None
+            self._defs_to_lambdas = self._ifs_to_conditional_expressions = self._outline = self._merge_conditional_calls = self._split_parallel_assignments = self._for_else_to_early_exit = self._scalarise_private_namedtuples = self._forward_pure_loads = self._spread_and_getattr = lambda: None
         self._defs_to_lambdas()
+        if self.helpers and not self.inline_only:
+            self._collect_refresh()       # helper bodies were captured before nested defs became lambdas
         if not self.helpers:
             self._split_parallel_assignments()
             self._for_else_to_early_exit()
@@ -1185,6 +1195,7 @@ class Normaliser(object):
         self._propagate_temporaries()
         self._scalarise_private_namedtuples()
         self._propagate_temporaries()
+        self._spread_and_getattr()
         self._forward_pure_loads()
         self._split_parallel_assignments()
         self._for_else_to_early_exit()
@@ -1467,6 +1478,66 @@ class Normaliser(object):
                                         continue
                         i += 1
                 rewrite(fn.body)
+
+    def _spread_and_getattr(self):
+        """`f(*t)` where `t` is bound once to a tuple display of names / constants and read only there is `f(a, b)`; `getattr(x, 'name')` with
+        a constant identifier is `x.name`"""
+        norm_ = self
+        for t in self.trees.values():
+            for fn in [n for n in ast.walk(t) if isinstance(n, ast.FunctionDef)]:
+                tuples = {}
+                for n in ast.walk(fn):
+                    if isinstance(n, ast.Assign) and len(n.targets) == 1 and isinstance(n.targets[0], ast.Name) and isinstance(n.value, ast.Tuple) and \
+                            all(isinstance(e, (ast.Name, ast.Constant)) for e in n.value.elts):
+                        tuples.setdefault(n.targets[0].id, []).append(n)
+                for nm, defs in list(tuples.items()):
+                    names = [x for x in ast.walk(fn) if isinstance(x, ast.Name) and x.id == nm]
+                    stars = [x for x in ast.walk(fn) if isinstance(x, ast.Starred) and isinstance(x.value, ast.Name) and x.value.id == nm]
+                    elems_rebound = any(isinstance(x, ast.Name) and isinstance(x.ctx, ast.Store) and x.id in {e.id for e in defs[0].value.elts if isinstance(e, ast.Name)}
+                                        and x.lineno > defs[0].lineno for x in ast.walk(fn)) if len(defs) == 1 else True
+                    if len(defs) != 1 or len(stars) != 1 or len(names) != 2 or elems_rebound:
+                        continue
+                    d0 = defs[0]
+
+                    class R(ast.NodeTransformer):
+                        def visit_Call(self_, c):
+                            self_.generic_visit(c)
+                            new_args = []
+                            for a in c.args:
+                                if a is stars[0]:
+                                    new_args.extend(copy.deepcopy(e) for e in d0.value.elts)
+                                else:
+                                    new_args.append(a)
+                            c.args = new_args
+                            return c
+                    R().visit(fn)
+
+                    def drop(stmts):
+                        out = []
+                        for s_ in stmts:
+                            if s_ is d0:
+                                continue
+                            for fld in ('body', 'orelse', 'finalbody'):
+                                b = getattr(s_, fld, None)
+                                if isinstance(b, list) and b and isinstance(b[0], ast.stmt):
+                                    setattr(s_, fld, drop(b) or [ast.copy_location(ast.Pass(), s_)])
+                            for h in getattr(s_, 'handlers', []) or []:
+                                h.body = drop(h.body) or [ast.copy_location(ast.Pass(), h)]
+                            out.append(s_)
+                        return out
+                    fn.body = drop(fn.body)
+                    norm_.inlined.append(('*tuple', fn.name, 'spread'))
+
+        class G(ast.NodeTransformer):
+            def visit_Call(self_, c):
+                self_.generic_visit(c)
+                if isinstance(c.func, ast.Name) and c.func.id == 'getattr' and len(c.args) == 2 and not c.keywords and isinstance(c.args[1], ast.Constant) and \
+                        isinstance(c.args[1].value, str) and c.args[1].value.isidentifier():
+                    norm_.inlined.append(('getattr constant', '', 'to-attribute'))
+                    return ast.copy_location(ast.Attribute(value=c.args[0], attr=c.args[1].value, ctx=ast.Load()), c)
+                return c
+        for t in self.trees.values():
+            G().visit(t)
 
     def _merge_conditional_calls(self):
         """`f(args) if c else g(args)` (same argument expressions) -> `(f if c else g)(args)`: test, callee, arguments are evaluated in
